@@ -386,9 +386,90 @@ func checkRepairedBlobWrittenBack(c *Ctx, res *report.Result, rule string) {
 	}
 }
 
+// checkFlagAccumulation: every loop-carried boolean of f (a bool phi in a loop header) is accumulated with OR:
+// on every way round the loop its new value is true, its old value, or something else only where the old value
+// was false. A flag that is overwritten per element reports only the last element's verdict.
+func checkFlagAccumulation(c *Ctx, res *report.Result, rule string, a anchor, min int) {
+	f := resolve(c, res, rule, a)
+	if f == nil {
+		return
+	}
+	var preserves func(v ssa.Value, p *ssa.Phi, d int) bool
+	preserves = func(v ssa.Value, p *ssa.Phi, d int) bool {
+		if d > 6 {
+			return false
+		}
+		if v == ssa.Value(p) {
+			return true
+		}
+		if b, ok := flow.ConstBool(v); ok && b {
+			return true
+		}
+		switch x := v.(type) {
+		case *ssa.BinOp:
+			if x.Op == token.OR || x.Op == token.LOR {
+				return preserves(x.X, p, d+1) || preserves(x.Y, p, d+1)
+			}
+		case *ssa.Phi:
+			for i, e := range x.Edges {
+				if preserves(e, p, d+1) {
+					continue
+				}
+				// arbitrary value allowed only where the old value was false
+				oldFalse := false
+				for _, g := range flow.EdgeGuards(x.Block().Preds[i], x.Block()) {
+					if g.Cond == ssa.Value(p) && !g.Side {
+						oldFalse = true
+					}
+				}
+				if !oldFalse {
+					return false
+				}
+			}
+			return true
+		}
+		return false
+	}
+	n := 0
+	for _, b := range f.Blocks {
+		for _, ins := range b.Instrs {
+			phi, ok := ins.(*ssa.Phi)
+			if !ok || !types.Identical(phi.Type().Underlying(), types.Typ[types.Bool]) {
+				continue
+			}
+			carried := false
+			okAll := true
+			for i, e := range phi.Edges {
+				pred := b.Preds[i]
+				if !b.Dominates(pred) {
+					continue // entry edge
+				}
+				carried = true
+				if !preserves(e, phi, 0) {
+					okAll = false
+				}
+			}
+			if !carried {
+				continue
+			}
+			n++
+			name := phi.Comment
+			if name == "" {
+				name = phi.Name()
+			}
+			res.Check(okAll, rule, fmt.Sprintf("%s: flag %s is accumulated over all elements", a.name, name), instrPos(c.Prog, phi), "new value = old || verdict", "a loop-carried flag is overwritten on each iteration instead of OR-accumulated: only the last element's verdict is reported (a repair of an earlier element is reported as 'nothing repaired', or a match is forgotten)")
+		}
+	}
+	if n < min {
+		res.Undec(rule, a.name+": accumulated flags", fnPos(c.Prog, f), fmt.Sprintf("%d loop-carried boolean flags found, %d confirmed by hand", n, min))
+	}
+}
+
 func checkBlobRepairPath(c *Ctx, res *report.Result) {
 	rule := "O17.4"
 	checkRepairedBlobWrittenBack(c, res, rule)
+	checkFlagAccumulation(c, res, rule, anchor{"interceptor", "", "validateAndRepairHistoryEvents"}, 1)
+	checkFlagAccumulation(c, res, rule, anchor{"interceptor", "", "translateDataBlobs"}, 2)
 	f := resolve(c, res, rule, anchor{"interceptor", "", "translateOneDataBlob"})
 	if f == nil {
 		return
